@@ -230,7 +230,8 @@ def rotate_case(draw):
                                              'root-0.log', 'root-2020-01-06.old.log', 'root-2024-03-01-copy.log', 'root-old.log']),
                             max_size=3, unique=True))
     return {'kind': 'rotate', 'ages': sorted(ages), 'foreign': foreign, 'max_days': draw(st.integers(0, 5)),
-            'steps': draw(st.lists(st.integers(1, 3), min_size=1, max_size=3))}
+            'steps': draw(st.lists(st.integers(1, 3), min_size=1, max_size=3)),
+            'logdir': draw(st.sampled_from(['absolute', 'absolute', 'relative', 'dotdot']))}
 
 
 def check_rotate(ctx, case):
@@ -258,8 +259,14 @@ def check_rotate(ctx, case):
     real = mlzlog.time
     mlzlog.time = fake
     logging.raiseExceptions = False
+    cwd = os.getcwd()
     try:
-        h = LogfileHandler(work, 'root', max_days=case['max_days'])
+        logdir = work
+        if case.get('logdir') in ('relative', 'dotdot'):
+            # the log directory as given by the user: relative to the working directory, or with '..' in it
+            os.chdir(os.path.dirname(work))
+            logdir = os.path.basename(work) if case['logdir'] == 'relative' else os.path.join(work, 'root', '..')
+        h = LogfileHandler(logdir, 'root', max_days=case['max_days'])
         rec = logging.LogRecord('root', logging.INFO, __file__, 1, 'line', None, None)
         h.emit(rec)
         today = day0
@@ -301,6 +308,7 @@ def check_rotate(ctx, case):
         h.close()
     finally:
         mlzlog.time = real
+        os.chdir(cwd)
         shutil.rmtree(work, ignore_errors=True)
 
 
